@@ -72,10 +72,7 @@ fn ffi_out(f: impl FnOnce(*mut Buffer) -> bool) -> Option<Vec<u8>> {
     if !f(&mut out as *mut Buffer) {
         return None;
     }
-    if out.ptr.is_null() {
-        return Some(vec![]);
-    }
-    Some(unsafe { std::slice::from_raw_parts(out.ptr, out.len) }.to_vec())
+    Some(crate::gens::ffi_take_output(out.ptr, out.len))
 }
 
 fn cat(v: &[&BigUint]) -> Vec<u8> {
@@ -167,7 +164,13 @@ fn check_seeded(seed: &[u8], o: &mut Outcome) -> Option<(Vec<u8>, Vec<u8>)> {
             if !ok {
                 return None;
             }
-            Some(if io.len == 0 { vec![] } else { unsafe { std::slice::from_raw_parts(io.ptr, io.len) }.to_vec() })
+            Some(if io.len == 0 {
+                vec![]
+            } else if io.ptr == seed.as_ptr() {
+                unsafe { std::slice::from_raw_parts(io.ptr, io.len) }.to_vec()
+            } else {
+                crate::gens::ffi_take_output(io.ptr, io.len)
+            })
         });
         match got {
             Ok(Some(b)) if &b == want => {}
@@ -278,7 +281,7 @@ impl Property for C14 {
     }
     fn rule(&self) -> String {
         "cases: seeds (empty, short literals, Keccak block-edge lengths, long patterns), seed pairs differing in one byte / by a suffix / only beyond byte 32 or 136, and unseeded invocations; \
-         each seeded case is compared on 3 entry points x 2 variants against ChaCha20(Keccak_ref(seed)) + documented field sampling + reference Poseidon; \
+         each seeded case is compared on 3 entry points x 2 variants against ChaCha20(Keccak_ref(seed)) + documented field sampling + reference Poseidon; the last 24 identities handed out through the C interface are re-read after every later C call and must still hold the bytes they were handed out with; \
          non-trivial = seed length not in {10,17} (the two pinned by the suite), any pair, any unseeded batch; distinct by case content".into()
     }
     fn assumptions(&self) -> Vec<String> {
@@ -362,6 +365,12 @@ impl Property for C14 {
                 o.label("unseeded");
                 o.nontrivial = true;
                 check_unseeded(&mut o);
+            }
+        }
+        // identities handed out through the C interface earlier must still read the same
+        if !o.failed() {
+            if let Some(m) = crate::gens::ffi_outputs_breach() {
+                vfail!(o, "{m} (key generation)");
             }
         }
         o
